@@ -350,6 +350,7 @@ func verifC09Rank(rx, ry, rz int) {}
 // A key term judges the whole result.
 //@ func NewFilter$1$2(res *benchfmt.Result) (m mask, x bool)
 //@   props C06
+//@   requires q != nil
 //@   ensures m == nil
 
 // testOf: what a Match says about measurement i.
